@@ -255,11 +255,14 @@ func main() {
 	}
 	srand.Reader = saved
 	secretLengths(r)
+	wrappedMessages(r)
 	histories(r)
 	garbage(r, a)
 	randFaults(r, a)
 	srand.Reader = &saltReader{salt: salts[1]}
 	streams(r, a)
+	longStreams(r)
+	faultShapes(r)
 	srand.Reader = saved
 	overlapped(r)
 	opensslBonus(r)
